@@ -122,6 +122,12 @@ fn shape_for(prop: &str, i: usize) -> Shape {
     s
 }
 
+/// the case about to be executed is written next to the output file, so that a crash of the process (a memory-safety
+/// violation of the crate under a mutation) still leaves the failing input behind
+fn mark(out: &str, text: &str) {
+    let _ = std::fs::write(format!("{}.current", out), text);
+}
+
 fn arg(args: &[String], key: &str) -> Option<String> {
     args.iter().position(|a| a == key).and_then(|i| args.get(i + 1).cloned())
 }
@@ -198,6 +204,7 @@ fn world_search(prop: &str, cases: usize, seed: u64, end: Instant, out: &str) ->
         let mut rng = Rng::new(seed.wrapping_mul(7_000_003).wrapping_add(i as u64));
         let use_meta = prop == "C17" || (prop == "C08" && i % 3 == 2);
         let case = if use_meta { Hist::M(meta::generate(&mut rng)) } else { Hist::W(world::generate(&mut rng)) };
+        mark(out, &case.to_text());
         let r = catch_unwind(AssertUnwindSafe(|| case.run()));
         let fail = match r {
             Ok(Some((p, w))) if p == prop => Some(w),
@@ -270,6 +277,7 @@ fn main() {
                     }
                     let mut rng = Rng::new(seed.wrapping_mul(9_000_011).wrapping_add(i as u64));
                     let c = asyncd::generate(&mut rng);
+                    mark(&out, &c.to_text());
                     match catch_unwind(AssertUnwindSafe(|| asyncd::run(&c))) {
                         Ok(Some(why)) => {
                             let text = format!("# property=C15\n# found-by=bounded search of the real crate (async dispatcher call sequences; seed {}, case {})\n# failure: {}\n{}", seed, i, why.replace('\n', " "), c.to_text());
@@ -304,6 +312,7 @@ fn main() {
                     }
                     let mut rng = Rng::new(seed.wrapping_mul(3_000_017).wrapping_add(i as u64));
                     let tree = parseq::generate(&mut rng);
+                    mark(&out, &tree.to_text());
                     match catch_unwind(AssertUnwindSafe(|| parseq::run(&tree))) {
                         Ok(Some(why)) => {
                             let text = format!("# property=C16\n# found-by=bounded search of the real crate (par/seq trees; seed {}, case {})\n# failure: {}\n{}", seed, i, why.replace('\n', " "), tree.to_text());
@@ -379,7 +388,7 @@ fn main() {
                     sh.p_multi = 0;
                     let plan = generate(&mut rng, sh);
                     if well_formed(&plan) {
-                        if let Ok(Some(why)) = catch_unwind(AssertUnwindSafe(|| asyncd::setup_run(&plan))) {
+                        if let Ok(Some(why)) = catch_unwind(AssertUnwindSafe(|| asyncd::setup_run(&plan, i % 64 == 7))) {
                             let text = format!("# property=C13\n# found-by=bounded search of the real crate (build_async + setup; seed {}, case {})\n# failure: {}\n{}a Setup\n", seed, i, why.replace('\n', " "), plan.to_text());
                             std::fs::write(&out, text).expect("cannot write the replay file");
                             println!("FAIL {}", why.replace('\n', " "));
@@ -407,6 +416,7 @@ fn main() {
                 }
                 let sh = shape_for(&prop, i);
                 let case = generate(&mut rng, sh);
+                mark(&out, &case.to_text());
                 if !sh.ill_formed && !well_formed(&case) {
                     continue;
                 }
@@ -542,7 +552,7 @@ fn main() {
             }
             if prop == "C13" && text.lines().any(|l| l.trim() == "a Setup") {
                 let plan_text: String = text.lines().filter(|l| !l.trim_start().starts_with("a ")).map(|l| format!("{}\n", l)).collect();
-                match Case::from_text(&plan_text).map(|c| asyncd::setup_run(&c)) {
+                match Case::from_text(&plan_text).map(|c| asyncd::setup_run(&c, true)) {
                     Ok(Some(w)) => {
                         println!("FAIL {}", w);
                         std::process::exit(1);
